@@ -18,6 +18,7 @@ import (
 	"github.com/scrapli/scrapligo/driver/options"
 	"github.com/scrapli/scrapligo/util"
 
+	"verifgo/facts"
 	"verifgo/sim"
 	"verifgo/vlib"
 )
@@ -1044,9 +1045,34 @@ func c08Script(run c08run, resetAfter map[int]bool, idleEvery bool) string {
 var (
 	c08ReDelim10 = regexp.MustCompile(`]]>]]>`)
 	c08ReDelim11 = regexp.MustCompile(`(?m)^##$`)
-	c08ReMsgID   = regexp.MustCompile(`(?i)(?:message-id="(\d+)")`)
+	// the oracle's reading of "the first message-id attribute" of a returned message: any legal
+	// XML spelling of the attribute (either quote character, white space around `=`)
+	c08ReMsgID   = regexp.MustCompile(`(?i)(?:message-id\s*=\s*["'](\d+)["'])`)
 	c08ReSubID   = regexp.MustCompile(`(?i)<subscription-id.*>(\d+)</subscription-id>`)
 )
+
+var (
+	c08SrcMsgIDOnce sync.Once
+	c08SrcMsgIDRe   *regexp.Regexp
+)
+
+// c08SrcMsgID is the library's messageIDPattern as it stands in the source under test (the scanner
+// `firstId` is diffed against Go's regexp running that pattern); falls back to the oracle's pattern
+// when the constant cannot be found.
+func c08SrcMsgID() *regexp.Regexp {
+	c08SrcMsgIDOnce.Do(func() {
+		c08SrcMsgIDRe = c08ReMsgID
+		facts.Repo = repoDir()
+		for _, fp := range facts.FindPatterns("driver/netconf") {
+			if fp.Name == "messageID" {
+				if re, err := regexp.Compile(fp.Src); err == nil {
+					c08SrcMsgIDRe = re
+				}
+			}
+		}
+	})
+	return c08SrcMsgIDRe
+}
 
 func c08GoScan(b []byte) string {
 	after := func(re *regexp.Regexp) string {
@@ -1057,7 +1083,7 @@ func c08GoScan(b []byte) string {
 		return vlib.Hex([]byte(ss[1]))
 	}
 	id := "N"
-	if m := c08ReMsgID.FindSubmatch(b); len(m) == 2 {
+	if m := c08SrcMsgID().FindSubmatch(b); len(m) == 2 {
 		n, _ := strconv.Atoi(string(m[1]))
 		id = strconv.Itoa(n)
 	}
@@ -1081,8 +1107,10 @@ func c08ScanStrings(r *vlib.Rng, n int) [][]byte {
 		`message-id="`, `MESSAGE-ID="`, `Message-Id="`, `message-id=`, `essage-id="`, `message_id="`, `"`, "1", "0", "101", "000", "9223372036854775807", "9223372036854775808", "18446744073709551616",
 		"a", " ", "<", "é", "\r", "x\n", "##x", "x##",
 		`message-id='`, `'`, `message-id = "`, `message-id="-`, `message-id="+`, `message-id="a`,
+		`message-id`, `MESSAGE-ID`, `=`, ` =`, "=\t", "\f", `='`, `="`, `7'`, `7"`, "message-id\n=\n'", `message-id ' `, `message-id=='`,
 		"<subscription-id>", "</subscription-id>", "<SUBSCRIPTION-ID>", "</Subscription-Id>", "<subscription-id xmlns=\"u\">", "<subscription-id", ">", "7", "42</subscription-id>", "<subscription-id>7</subscription-id>", "</subscription-id", "<sub"}
-	out := [][]byte{{}, []byte("##"), []byte("\n##"), []byte("##\n"), []byte("a##"), []byte("##a"), []byte(`message-id="7"`), []byte(`message-id=""`), []byte(`message-id="7`), []byte(`message-id="0"`), []byte(`message-id="00012"`)}
+	out := [][]byte{{}, []byte("##"), []byte("\n##"), []byte("##\n"), []byte("a##"), []byte("##a"), []byte(`message-id="7"`), []byte(`message-id=""`), []byte(`message-id="7`), []byte(`message-id="0"`), []byte(`message-id="00012"`),
+		[]byte(`message-id='7'`), []byte(`message-id = "7"`), []byte("message-id\t=\n'7\""), []byte(`message-id="7'`), []byte(`message-id ="7" message-id="8"`), []byte(`message-id= ''`), []byte("message-id\v=\"7\"")}
 	for i := 0; i < n; i++ {
 		var b []byte
 		k := r.Range(1, 9)
